@@ -236,10 +236,7 @@ func (c *Case) Exec(t *eng.T) {
 			want = b.String()
 		}
 	case "filter-tag":
-		if len(c.Chain) == 0 {
-			t.Skip()
-			return
-		}
+		// the empty chain, too: the body unchanged
 		body := "ab cd"
 		src = "{% filter " + strings.TrimPrefix(c.chainSrc(), "|") + " %}" + body + "{% endfilter %}"
 		res, oerr = c.compose(ctx, body)
@@ -399,6 +396,55 @@ func (c *RegCase) Exec(t *eng.T) {
 		if o.S != "okab" {
 			t.Fail("register:replaced", "after the refused registration of tag %q the built-in tags render %s", c.Name, o)
 		}
+	}
+}
+
+// FreshRegCase: a name registered by the application itself (with the given kind of first registration) is then
+// "registered" for every later attempt, too.
+type FreshRegCase struct {
+	Kind  string `json:"kind"`  // filter or tag
+	First string `json:"first"` // "fn" = a working function, "nil" = a nil function
+}
+
+func (c *FreshRegCase) ID() string { return "register a new " + c.Kind + " (" + c.First + "), then again" }
+
+var freshNames int
+
+func (c *FreshRegCase) Exec(t *eng.T) {
+	t.Nontrivial()
+	freshNames++
+	name := fmt.Sprintf("vfresh%s%d", c.Kind, freshNames)
+	var e1, e2 error
+	if c.Kind == "filter" {
+		var fn pongo2.FilterFunction
+		if c.First == "fn" {
+			fn = func(in, p *pongo2.Value) (*pongo2.Value, *pongo2.Error) { return pongo2.AsValue("FIRST"), nil }
+		}
+		e1 = pongo2.RegisterFilter(name, fn)
+		if e1 == nil && !pongo2.FilterExists(name) {
+			t.Fail("register:accepted-but-missing", "RegisterFilter(%q, %s) succeeds but FilterExists says no", name, c.First)
+		}
+		e2 = pongo2.RegisterFilter(name, func(in, p *pongo2.Value) (*pongo2.Value, *pongo2.Error) { return pongo2.AsValue("SECOND"), nil })
+		if c.First == "fn" {
+			if o := px.Render(nil, "{{ 1|"+name+" }}", nil); o.S != "FIRST" {
+				t.Fail("register:replaced", "after a second registration attempt {{ 1|%s }} renders %s", name, o)
+			}
+		}
+	} else {
+		var p pongo2.TagParser
+		if c.First == "fn" {
+			p = func(doc *pongo2.Parser, start *pongo2.Token, arguments *pongo2.Parser) (pongo2.INodeTag, *pongo2.Error) {
+				return nil, arguments.Error("FIRST", nil)
+			}
+		}
+		e1 = pongo2.RegisterTag(name, p)
+		e2 = pongo2.RegisterTag(name, func(doc *pongo2.Parser, start *pongo2.Token, arguments *pongo2.Parser) (pongo2.INodeTag, *pongo2.Error) {
+			return nil, arguments.Error("SECOND", nil)
+		})
+	}
+	t.Outcome(fmt.Sprint(e1 == nil, e2 == nil))
+	if e1 == nil && e2 == nil {
+		t.Fail("register:accepted-twice", "the new %s name %q was registered (%s) and a second registration of the same name is accepted", c.Kind, name, c.First)
 	}
 }
 
@@ -562,6 +608,12 @@ func run(r *eng.Runner) {
 	for _, tg := range []string{"if", "for", "block", "extends"} {
 		r.Do(&RegCase{Kind: "tag", Name: tg})
 	}
+	r.Group("register-fresh", "c19.freshreg", "a name the application registered itself (with a function or with nil) is refused the second time as well")
+	for _, k := range []string{"filter", "tag"} {
+		for _, f := range []string{"fn", "nil"} {
+			r.Do(&FreshRegCase{Kind: k, First: f})
+		}
+	}
 }
 
 func init() {
@@ -569,6 +621,7 @@ func init() {
 	eng.RegisterCase("c19.unknown", func() eng.Case { return &UnknownCase{} })
 	eng.RegisterCase("c19.reentrant", func() eng.Case { return &ReentrantCase{} })
 	eng.RegisterCase("c19.reg", func() eng.Case { return &RegCase{} })
+	eng.RegisterCase("c19.freshreg", func() eng.Case { return &FreshRegCase{} })
 	eng.RegisterCase("c19.consist", func() eng.Case { return &ConsistCase{} })
 	eng.Register(&eng.Check{
 		ID:    "C19",
